@@ -200,7 +200,9 @@ def replay(files, violation, known=(), timeout=300, patches=(), scaled_files=Non
             return False, "no replay line: " + out[-500:]
     kind = violation["kind"]
     if kind == "assert":
-        ok = line.startswith("VERIF-REPLAY: assert") and violation["msg"] in line
+        # the natively failing assertion may be an earlier one of the same harness (the model violates both): any failed
+        # assertion or panic of the real code under the model's inputs is a reproduced violation; the native line is reported
+        ok = line.startswith("VERIF-REPLAY: assert") or line.startswith("VERIF-REPLAY: panic") or line.startswith("VERIF-REPLAY: fatal")
     elif kind in ("panic", "block", "unwind"):
         ok = line.startswith("VERIF-REPLAY: panic") or line.startswith("VERIF-REPLAY: fatal")
     else:
